@@ -15,12 +15,14 @@ import (
 	"fmt"
 	"html"
 	"math/rand"
+	"regexp"
 	"strconv"
 	"strings"
 	"sync"
 	"time"
 
 	"github.com/scrapli/scrapligo/driver/netconf"
+	"github.com/scrapli/scrapligo/driver/network"
 	"github.com/scrapli/scrapligo/driver/opoptions"
 	"github.com/scrapli/scrapligo/driver/options"
 	"github.com/scrapli/scrapligo/util"
@@ -127,10 +129,89 @@ type Desc struct {
 	HelloPlace   string `json:"hello_place,omitempty"`
 	// CloseErr: the transport's Close returns an error (after closing).
 	CloseErr bool `json:"close_err,omitempty"`
+	// Foreign: options meant for CLI drivers that the user's option list carries as well (one list
+	// shared between the CLI and the NETCONF driver of a device); OptOrder is the order in which the
+	// whole list (transport, timeout, read delay, [preferred version], Foreign...) is passed.
+	Foreign  []string `json:"foreign,omitempty"`
+	OptOrder []int    `json:"opt_order,omitempty"`
 	// CapsWire, if set, is parallel to Caps: the character data of each capability element as
 	// written on the wire (which escape form is used for which character); else xmlEscape(Caps[i]).
 	CapsWire []string `json:"caps_wire,omitempty"`
 	EscForms []string `json:"esc_forms,omitempty"` // classes of escape forms used (evidence)
+}
+
+// foreignKinds are the CLI-ish options; none of them applies to NETCONF session establishment.
+// (WithReturnChar other than LF is only used where the table does not select 1.1: the library writes
+// the return character as the LF of the chunked framing, so a CR there is the user's doing.)
+var foreignKinds = []string{
+	"prompt:hostname", "prompt:generic", "prompt:any-line-ending-in->", "returnchar:lf", "returnchar:crlf", "returnchar:cr",
+	"psd:32", "psd:64", "psd:300", "failed-when-contains", "default-desired-priv", "privilege-levels",
+	"readsize:2", "readsize:3", "readsize:7", "readsize:16", "readsize:64", "username-pattern", "password-pattern",
+}
+
+func foreignOption(kind string, helloLen int) util.Option {
+	k, v, _ := strings.Cut(kind, ":")
+	switch k {
+	case "prompt":
+		switch v {
+		case "hostname":
+			return options.WithPromptPattern(regexp.MustCompile(`(?im)^router1[#>]\s*$`))
+		case "generic":
+			return options.WithPromptPattern(regexp.MustCompile(`(?im)^[a-z\d.\-@()/:]{1,48}[#>$]\s*$`))
+		default:
+			return options.WithPromptPattern(regexp.MustCompile(`(?m)^\S+[#>]\s*$`))
+		}
+	case "returnchar":
+		return options.WithReturnChar(map[string]string{"lf": "\n", "crlf": "\r\n", "cr": "\r"}[v])
+	case "psd":
+		n, _ := strconv.Atoi(v)
+		return options.WithPromptSearchDepth(n)
+	case "failed-when-contains":
+		return options.WithFailedWhenContains([]string{"hello", "capability", "rpc-reply", "% Invalid"})
+	case "default-desired-priv":
+		return options.WithDefaultDesiredPriv("configuration")
+	case "privilege-levels":
+		return options.WithPrivilegeLevels(map[string]*network.PrivilegeLevel{
+			"exec": {Name: "exec", Pattern: `(?im)^\S+>$`}, "configuration": {Name: "configuration", Pattern: `(?im)^\S+\(config\)#$`, PreviousPriv: "exec", Escalate: "configure terminal", Deescalate: "end"}})
+	case "readsize":
+		n, _ := strconv.Atoi(v)
+		if helloLen/n > 1500 { // keep the number of reads (one read delay each) bounded
+			n = helloLen/1500 + 1
+		}
+		return options.WithTransportReadSize(n)
+	case "username-pattern":
+		return options.WithUsernamePattern(regexp.MustCompile(`(?im)^(.*hello.*|login:)\s*$`))
+	default:
+		return options.WithPasswordPattern(regexp.MustCompile(`(?im)capabilit|password:\s*$`))
+	}
+}
+
+// genForeign draws 1-4 foreign options (a prompt pattern in most sessions) and a passing order.
+func genForeign(r *rand.Rand, d *Desc, k int) {
+	want := table[cell{d.Adv10, d.Adv11, d.Preferred}]
+	seen := map[string]bool{}
+	pick := func(kind string) {
+		fam, _, _ := strings.Cut(kind, ":")
+		if seen[fam] || (want == "1.1" && (kind == "returnchar:crlf" || kind == "returnchar:cr")) {
+			return
+		}
+		seen[fam] = true
+		d.Foreign = append(d.Foreign, kind)
+	}
+	if k%3 != 2 {
+		pick(foreignKinds[(k/3)%3]) // one of the three prompt patterns
+	}
+	for n := 1 + r.Intn(3); n > 0; n-- {
+		pick(foreignKinds[r.Intn(len(foreignKinds))])
+	}
+	if len(d.Foreign) == 0 {
+		pick("prompt:generic")
+	}
+	nopt := 3 + len(d.Foreign)
+	if d.Preferred != "" {
+		nopt++
+	}
+	d.OptOrder = r.Perm(nopt)
 }
 
 // numericRefsOnWire: also write characters as numeric character references (&#38; &#x26;) on the
@@ -676,6 +757,19 @@ func gen(tier string, seed int64) []mon.Case {
 			}
 		}
 	}
+	// --- option lists that also carry options meant for CLI drivers, all cells
+	perForeign := 12
+	if tier == "thorough" {
+		perForeign = 250
+	}
+	r5 := rand.New(rand.NewSource(seed*7919 + 999909))
+	for k := 0; k < perForeign; k++ {
+		for ci, c := range cells {
+			d := GenDesc(r5, c, k%2 == 1, -1)
+			genForeign(r5, &d, k+ci)
+			add(d)
+		}
+	}
 	// --- capability texts in every XML escape form, escaped escapes included
 	perEsc := 8
 	if tier == "thorough" {
@@ -961,6 +1055,16 @@ func RunDesc(d Desc) mon.Result {
 	if d.Preferred != "" {
 		opts = append(opts, options.WithNetconfPreferredVersion(d.Preferred))
 	}
+	for _, f := range d.Foreign {
+		opts = append(opts, foreignOption(f, len(hello)))
+	}
+	if len(d.OptOrder) == len(opts) {
+		o := make([]util.Option, len(opts))
+		for i, j := range d.OptOrder {
+			o[i] = opts[j]
+		}
+		opts = o
+	}
 	drv, err := netconf.NewDriver("dev", opts...)
 	if err != nil {
 		return mon.Result{Verdict: mon.Violated, Key: "c09/new-driver-failed", Detail: err.Error()}
@@ -1034,6 +1138,16 @@ func RunDesc(d Desc) mon.Result {
 	}
 	for _, f := range d.EscForms {
 		tags = append(tags, "cap-escape="+f)
+	}
+	if len(d.Foreign) > 0 {
+		obs["foreign_option_sessions"] = 1
+		obs["foreign_options_passed"] = int64(len(d.Foreign))
+		for _, f := range d.Foreign {
+			tags = append(tags, "foreign="+f)
+			if strings.HasPrefix(f, "prompt:") {
+				obs["foreign_prompt_pattern_sessions"] = 1
+			}
+		}
 	}
 	if d.CloseErr {
 		obs["close_error_sessions"] = 1
@@ -1429,6 +1543,7 @@ func init() {
 			"capabilities of the hello, look-alikes, absent ones) and repeated lookups after Open judged against the hello sent; a one-shot transport write error at write 1, 2 (the open sequence) and 3 for every succeeding cell x echo; " +
 			"server hello sent 3/20/60 ms after open or at the client's first write, whichever is earlier, x echo on/off x placement relative to the echo (own message before it / contiguous with it / after it) for all cells; " +
 			"transport whose Close returns an error for all cells and hello-less messages; " +
+			"option lists that also carry 1-4 options meant for CLI drivers (prompt pattern, return char, small search depth, failed-when, privilege levels/desired privilege, small read size, login patterns) in PRNG order for all cells; " +
 			"capability texts written with the five predefined entities, literal > \" ', and escaped escapes (&amp;amp; &amp;lt; &amp;#38; &amp;#x26; ...) in query strings and paths, reference = encoding/xml character data. Non-trivial = prefixed element names, or the server's first message delivered in >= 2 transport reads, or a cell that must fail. " +
 			"Distinct = distinct descriptor hash.",
 		Assumptions: []string{
@@ -1442,6 +1557,8 @@ func init() {
 			"server hello timing: the server sends its hello unconditionally within 60 ms (far below the 10 s timeout); a server that withholds its hello until it has the client's is outside (the property does not say whether Open must speak first; the pinned Open reads first and would time out - C05's subject)",
 			"a transport Close that returns an error has nevertheless closed; the error identity of a failing negotiation and exactly one transport Close are judged all the same",
 			"capability escape forms judged: the five predefined entities and escaped escapes; numeric character references ON THE WIRE (&#38;, &#x26;) are generated only with numericRefsOnWire (off: the pinned library leaves them unresolved - reported finding, decision pending)",
+			"foreign options: a user option that does not apply to NETCONF session establishment must not change the outcome; WithReturnChar other than LF only where the table does not select 1.1 (the library writes the return char as the LF of the chunked framing); WithPromptSearchDepth >= 32 (see next)",
+			"a LF after the hello's delimiter is only generated when an earlier LF lies within the last PromptSearchDepth bytes (multi-line layouts): otherwise the pinned channel cuts its search window at that LF and never sees the delimiter (reported finding, decision pending)",
 			"trusted base: ncwire strict codec, ncsim server model, encoding/xml, the table (12 lines)",
 			"timeouts 10 s (open) / 6 s (rpc); a timeout is judged only if every needed byte had been delivered and the load canary is quiet, else inconclusive",
 		},
